@@ -9,7 +9,6 @@ import (
 	"os"
 	"os/exec"
 	"path/filepath"
-	"runtime"
 	"runtime/debug"
 	"strconv"
 	"strings"
@@ -136,7 +135,11 @@ func (a *corruptResult) merge(b *corruptResult) {
 	}
 }
 
-var hugeBudget = 2 // dangerous (multi-GiB length) flips still executed per process
+// Flips that turn a length or count field into a multi-GiB value are executed
+// only a bounded number of times per process: budget[0] for values the runtime
+// rejects outright (>= 2^47: makeslice panics), budget[1] for values it tries
+// to allocate (the process dies with "out of memory" under the address-space limit).
+var hugeBudget = [2]int{1, 1}
 
 // corruptStream flips single bytes of the stream and classifies what the
 // decoder does with the result. progress (may be nil) is called before every
@@ -180,6 +183,8 @@ func corruptStream(s *Stream, startFlip, maxPositions int, progress func(flip in
 		}
 	}
 	buf := make([]byte, n)
+	var rd bytes.Reader
+	dec := newDecoder(s.Codec, &rd, s.Local, s.Remote)
 	flip := -1
 	for _, p := range positions {
 		for _, mask := range flipMasks {
@@ -191,11 +196,15 @@ func corruptStream(s *Stream, startFlip, maxPositions int, progress func(flip in
 				v := binary.BigEndian.Uint64(s.Bytes[f.off:])
 				nv := v ^ (uint64(mask) << (8 * uint(7-(p-f.off))))
 				if (f.kind == "size" && nv > 64<<20) || (f.kind == "count" && nv > 200000) {
-					if hugeBudget <= 0 {
+					cls := 0
+					if nv < 1<<47 {
+						cls = 1
+					}
+					if (cls == 1 && nv < 8<<30) || hugeBudget[cls] <= 0 {
 						res.SkippedHuge++
 						continue
 					}
-					hugeBudget--
+					hugeBudget[cls]--
 					res.ExecutedHuge++
 				}
 			}
@@ -206,7 +215,8 @@ func corruptStream(s *Stream, startFlip, maxPositions int, progress func(flip in
 			buf[p] ^= mask
 			res.Flips++
 			res.ByCodec[s.Codec]++
-			dec := newDecoder(s.Codec, bytes.NewReader(buf), s.Local, s.Remote)
+			rd.Reset(buf)
+			dec.Reset(&rd)
 			outcome := ""
 			for i := 0; i <= len(s.Msgs)+1; i++ {
 				m, err, pan := safeDecode(dec)
@@ -303,9 +313,9 @@ type corruptJob struct {
 }
 
 func corruptJobs(tier string) []corruptJob {
-	k := 40
+	k := 60
 	if tier == "thorough" {
-		k = 500
+		k = 1500
 	}
 	jobs := []corruptJob{{"tiny", 0}, {"tiny", 1}}
 	for i := 0; i < k; i++ {
@@ -333,14 +343,13 @@ func corruptChild(args []string) int {
 	nshards, _ := strconv.Atoi(args[3])
 	startPos, _ := strconv.Atoi(args[4])
 	startFlip, _ := strconv.Atoi(args[5])
-	hugeBudget, _ = strconv.Atoi(args[6])
+	hb, _ := strconv.Atoi(args[6])
+	hugeBudget = [2]int{hb, hb}
 	outPath, progPath := args[7], args[8]
 	// a corrupted length must not be able to take the machine down
-	lim := syscall.Rlimit{Cur: 6 << 30, Max: 6 << 30}
+	lim := syscall.Rlimit{Cur: 4 << 30, Max: 4 << 30}
 	syscall.Setrlimit(syscall.RLIMIT_AS, &lim)
-	debug.SetGCPercent(1000)
-	ballast := make([]byte, 64<<20)
-	defer runtime.KeepAlive(ballast)
+	debug.SetMemoryLimit(1 << 30)
 	pf, err := os.Create(progPath)
 	if err != nil {
 		fmt.Fprintln(os.Stderr, err)
@@ -394,7 +403,7 @@ func runCorruption(c *vc.Ctx, pl plan) error {
 	c.ParallelFor(nshards, func(sh int) {
 		acc := newCorruptResult()
 		results[sh] = acc
-		startPos, startFlip, huge := 0, 0, 2
+		startPos, startFlip, huge := 0, 0, 1
 		for attempt := 0; attempt < 60; attempt++ {
 			out := filepath.Join(c.Scratch, fmt.Sprintf("corrupt-%d-%d.json", sh, attempt))
 			prog := filepath.Join(c.Scratch, fmt.Sprintf("corrupt-%d-%d.progress", sh, attempt))
